@@ -7,6 +7,7 @@ package harness
 // with its own oracle.
 
 import (
+	"runtime"
 	"context"
 	"fmt"
 	"sort"
@@ -90,6 +91,7 @@ type QueryRun struct {
 	Calls    []CallRec   // DataStore/MetaStore calls made during the query
 	Handles  []HandleRec // read handles opened during the query
 	FaultPlanned bool    // a transient store failure was scheduled for this query
+	StatsPolled  bool    // Stats was also read while the query was in flight
 }
 
 type SearchRun struct {
@@ -102,16 +104,38 @@ type SearchRun struct {
 	After  []*FileInfo        // world read back after the queries
 }
 
-func collectResults(res *bs.Results, limit time.Duration) ([]map[string]any, error, bool) {
+func collectResults(res *bs.Results, limit time.Duration, pollStats ...bool) ([]map[string]any, error, bool) {
 	type out struct {
 		rows []map[string]any
 		err  error
 	}
 	done := make(chan out, 1)
+	poll := len(pollStats) > 0 && pollStats[0]
+	quit := make(chan struct{})
+	if poll {
+		// a progress reporter: Stats is read while the query is in flight, from
+		// another goroutine and between rows; only the snapshot taken after Next
+		// returned false is judged
+		go func() {
+			for {
+				select {
+				case <-quit:
+					return
+				default:
+					res.Stats()
+					runtime.Gosched()
+				}
+			}
+		}()
+	}
 	go func() {
+		defer close(quit)
 		var rows []map[string]any
 		for res.Next() {
 			rows = append(rows, res.Row())
+			if poll {
+				res.Stats()
+			}
 		}
 		done <- out{rows, res.Err()}
 	}()
@@ -150,12 +174,13 @@ func runQueries(eng *bs.BloomSearchEngine, tr *Trace, queries []QuerySpec, fault
 			runs = append(runs, run)
 			continue
 		}
-		rows, rerr, ok := collectResults(res, 120*time.Second)
+		rows, rerr, ok := collectResults(res, 120*time.Second, qi%2 == 1)
 		if !ok {
 			return nil, violf("query did not finish within 120s on healthy in-memory stores: %s", shortJSON(qs, 600))
 		}
 		res.Close()
 		run.Rows, run.Err = rows, rerr
+		run.StatsPolled = qi%2 == 1
 		run.Stats = res.Stats()
 		run.Calls = tr.Calls()
 		run.Handles = tr.Handles()
